@@ -1,5 +1,5 @@
 """Human-written parts of MANIFEST.json."""
-HOOK_COMMITS = []
+HOOK_COMMITS = ["4d68646"]
 NOTES = ("Every check rebuilds ada from /repo's working tree (tree hash over src/, include/, singleheader/amalgamate.py) "
          "and decides by bounded exhaustive enumeration; VERIF_SEED is recorded but selects nothing. "
          "Genuine defects found and repaired are listed in known_findings.json (status fixed).")
